@@ -327,6 +327,22 @@ func TestProp(t *testing.T) {
 			}
 		})
 	}
+	// CR3 files with one to three preview boxes of different sizes (what one preview leaves behind meets the next): a fixed
+	// set of 24 drawn files, whatever VERIF_SEED is
+	if complete {
+		for i := 0; i < 24 && complete; i++ {
+			data := rapid.Custom(func(rt *rapid.T) []byte { b, _ := gen.MultiPreviewCR3(rt); return b }).Example(i + 1)
+			for _, entry := range []string{"PreviewCR3", "BMFF", "Decode"} {
+				c := Case{Req: worker.Req{Entry: entry, Input: data, K: 6}, Origin: "multi-preview-cr3"}
+				if f := eval(c); f != nil {
+					if pbt.Report(t, rec, chk.Name, c, f) {
+						complete = false
+						break
+					}
+				}
+			}
+		}
+	}
 	// the exported signature tests that take bytes directly: every prefix of the TIFF signatures and a few other starts
 	if complete {
 		for _, base := range []string{"II*\x00\x08\x00\x00\x00", "MM\x00*\x00\x00\x00\x08", "IIU\x00\x18\x00\x00\x00", "\xff\xd8\xff\xe1", "\x00\x00\x00\x18ftyp"} {
